@@ -667,49 +667,206 @@ theorem footprint_disjoint_partial (ns svc₁ ing₁ svc₂ ing₂ : String)
 
 /-! ### the dynamic watch registry -/
 
-/-- a rollout whose workload kind is registered leaves the registry alone and is not delayed -/
-theorem watch_registered_noop (w : List String) (gvk : String) (d : Bool) (h : w.contains gvk = true) :
-    reconcileWatch w gvk d = (w, false, false) := by
-  unfold reconcileWatch; rw [if_pos h]
+theorem step_start (s : WState) (r : Nat) (gvk : String) :
+    s.step (.start r gvk) = if watchStart s.registry gvk = true then { s with inflight := r :: s.inflight } else s := rfl
+theorem step_finish (s : WState) (r : Nat) (gvk : String) (res : AddRes) :
+    s.step (.finish r gvk res) = if s.inflight.contains r = true then
+      { registry := (watchFinish s.registry gvk res).1, inflight := s.inflight.filter (· != r),
+        succeeded := if res = .added then gvk :: s.succeeded else s.succeeded } else s := rfl
 
-/-- the registry only grows, and what a reconcile adds is its own kind -/
-theorem watch_monotone (w : List String) (gvk : String) (d : Bool) (k : String) :
-    ((reconcileWatch w gvk d).1.contains k = true ↔ (w.contains k = true ∨ (k = gvk ∧ w.contains gvk = false ∧ d = true))) := by
+/-- a rollout whose workload kind is registered leaves the registry alone, calls no `Watch` and is not delayed -/
+theorem watch_registered_noop (w : List String) (gvk : String) (res : AddRes) (h : w.contains gvk = true) :
+    reconcileWatch w gvk res = (w, false, .proceed) := by
+  unfold reconcileWatch watchStart
+  rw [h]; rfl
+
+/-- a reconcile that nothing interleaves with is `start` followed by `finish` -/
+theorem reconcile_is_start_finish (s : WState) (r : Nat) (gvk : String) (res : AddRes) (h : s.inflight.contains r = false) :
+    ((s.step (.start r gvk)).step (.finish r gvk res)).registry = (reconcileWatch s.registry gvk res).1 := by
+  rw [step_start]
   unfold reconcileWatch
-  by_cases h1 : w.contains gvk = true
-  · rw [if_pos h1]
+  by_cases hs : watchStart s.registry gvk = true
+  · rw [if_pos hs, if_pos hs, step_finish]
+    simp
+  · rw [if_neg hs, if_neg hs, step_finish, h]
+    simp
+
+theorem finish_registry_mem (w : List String) (gvk : String) (res : AddRes) (k : String) :
+    k ∈ (watchFinish w gvk res).1 ↔ (k ∈ w ∨ (k = gvk ∧ res = .added)) := by
+  unfold watchFinish
+  cases res with
+  | err => simp
+  | notServed => simp
+  | added =>
+    by_cases hc : w.contains gvk = true
+    · have hm : gvk ∈ w := by simpa using hc
+      simp only [hc, if_true]
+      constructor
+      · exact Or.inl
+      · rintro (h | ⟨h, _⟩)
+        · exact h
+        · exact h ▸ hm
+    · simp only [hc]
+      simp [List.mem_append]
+
+/-- the invariant: a kind is registered iff it was registered initially or some `Watch` call for it has succeeded -/
+def regInv (w0 : List String) (s : WState) : Prop :=
+  ∀ k, k ∈ s.registry ↔ (k ∈ w0 ∨ k ∈ s.succeeded)
+
+theorem regInv_step (w0 : List String) (s : WState) (e : WEv) (h : regInv w0 s) : regInv w0 (s.step e) := by
+  cases e with
+  | start r gvk =>
+    rw [step_start]; split <;> exact h
+  | finish r gvk res =>
+    rw [step_finish]
+    split
+    · intro k
+      show k ∈ (watchFinish s.registry gvk res).1 ↔ _
+      rw [finish_registry_mem, h k]
+      cases res with
+      | err => simp
+      | notServed => simp
+      | added =>
+        simp only [and_true, if_true, List.mem_cons]
+        constructor
+        · rintro ((h1 | h1) | h1)
+          · exact Or.inl h1
+          · exact Or.inr (Or.inr h1)
+          · exact Or.inr (Or.inl h1)
+        · rintro (h1 | h1 | h1)
+          · exact Or.inl (Or.inl h1)
+          · exact Or.inr h1
+          · exact Or.inl (Or.inr h1)
+    · exact h
+
+theorem registry_step_mono (s : WState) (e : WEv) (k : String) (h : k ∈ s.registry) : k ∈ (s.step e).registry := by
+  cases e with
+  | start r gvk => rw [step_start]; split <;> exact h
+  | finish r gvk res =>
+    rw [step_finish]
+    split
+    · show k ∈ (watchFinish s.registry gvk res).1
+      rw [finish_registry_mem]; exact Or.inl h
+    · exact h
+
+/-- **a failed `Watch` leaves the registry unchanged** and the reconcile returns the error (so it is retried);
+    nothing is claimed before success -/
+theorem watch_error_keeps_registry (w : List String) (gvk : String) :
+    (reconcileWatch w gvk .err).1 = w ∧
+    (w.contains gvk = false → reconcileWatch w gvk .err = (w, true, .error)) := by
+  unfold reconcileWatch watchStart watchFinish
+  cases h : w.contains gvk <;> simp
+
+/-- the registry only grows, and what a reconcile adds is its own kind, after a successful `Watch` -/
+theorem watch_monotone (w : List String) (gvk : String) (res : AddRes) (k : String) :
+    (k ∈ (reconcileWatch w gvk res).1 ↔ (k ∈ w ∨ (k = gvk ∧ gvk ∉ w ∧ res = .added))) := by
+  unfold reconcileWatch watchStart
+  cases h1 : w.contains gvk with
+  | true =>
+    have hm : gvk ∈ w := by simpa using h1
+    simp only [Bool.not_true, Bool.false_eq_true, if_false]
     constructor
     · exact Or.inl
     · rintro (h | ⟨_, h, _⟩)
       · exact h
-      · rw [h] at h1; cases h1
-  · rw [if_neg h1]
-    have h1' : w.contains gvk = false := by simpa using h1
-    cases d with
-    | true =>
-      simp only [if_true, h1', Bool.false_eq_true, if_false, and_true, true_and]
-      simp only [List.contains_eq_mem, List.mem_append, List.mem_singleton, decide_eq_true_eq]
-    | false =>
-      simp only [Bool.false_eq_true, if_false, and_false, or_false]
-
-/-- **frame, watch registry**: a reconcile for kind `gvk` never changes whether another kind is registered -/
-theorem watch_frame (w : List String) (gvk k : String) (d : Bool) (h : k ≠ gvk) :
-    (reconcileWatch w gvk d).1.contains k = w.contains k := by
-  have := watch_monotone w gvk d k
-  cases hc : w.contains k with
-  | true => exact this.mpr (Or.inl hc)
+      · exact absurd hm h
   | false =>
-    cases hr : (reconcileWatch w gvk d).1.contains k with
-    | false => rfl
-    | true =>
-      rcases this.mp hr with h' | ⟨h', _⟩
-      · rw [hc] at h'; cases h'
-      · exact absurd h' h
+    have hm : gvk ∉ w := by simpa using h1
+    simp only [Bool.not_false, if_true]
+    rw [finish_registry_mem]
+    simp [hm]
 
-/-- the six kinds registered by `init()` are never delayed, whatever other rollouts did before (a *test* over the table) -/
-theorem watch_static (gvk : String) (h : staticKinds.contains gvk = true) (d : Bool) :
-    reconcileWatch staticKinds gvk d = (staticKinds, false, false) :=
-  watch_registered_noop staticKinds gvk d h
+/-- **frame, watch registry**: a reconcile for kind `gvk` never changes whether another kind is registered,
+    whatever its own `Watch` call answers -/
+theorem watch_frame (w : List String) (gvk k : String) (res : AddRes) (h : k ≠ gvk) :
+    (k ∈ (reconcileWatch w gvk res).1 ↔ k ∈ w) := by
+  rw [watch_monotone]
+  constructor
+  · rintro (h1 | ⟨h1, _⟩)
+    · exact h1
+    · exact absurd h1 h
+  · exact Or.inl
+
+/-- the six kinds registered by `init()` are never delayed, whatever other rollouts did before and whatever
+    `Watch` would answer (a *test* over the table) -/
+theorem watch_static (gvk : String) (h : staticKinds.contains gvk = true) (res : AddRes) :
+    reconcileWatch staticKinds gvk res = (staticKinds, false, .proceed) :=
+  watch_registered_noop staticKinds gvk res h
+
+/-- **watch_registered_iff_succeeded** (by induction over the trace): in any trace of reconciles of any rollouts of
+    arbitrary kinds, interleaved at the granularity of `Load` / return of `AddWatcherDynamically`, with arbitrary
+    `Watch` failures, a kind is in the registry iff it was there initially or some `Watch` call for it succeeded -/
+theorem watch_registered_iff_succeeded (w0 : List String) (tr : List WEv) :
+    ∀ k, (k ∈ (WState.run ⟨w0, [], []⟩ tr).registry ↔
+      (k ∈ w0 ∨ k ∈ (WState.run ⟨w0, [], []⟩ tr).succeeded)) := by
+  have gen : ∀ (tr : List WEv) (s : WState), regInv w0 s → regInv w0 (s.run tr) := by
+    intro tr
+    induction tr with
+    | nil => intro s h; exact h
+    | cons e es ih => intro s h; exact ih _ (regInv_step w0 s e h)
+  exact gen tr ⟨w0, [], []⟩ (by intro k; simp)
+
+theorem registry_run_mono (tr : List WEv) : ∀ (s : WState) (k : String), k ∈ s.registry → k ∈ (s.run tr).registry := by
+  induction tr with
+  | nil => intro s k h; exact h
+  | cons e es ih => intro s k h; exact ih _ k (registry_step_mono s e k h)
+
+theorem run_append (s : WState) (a b : List WEv) : s.run (a ++ b) = (s.run a).run b := by
+  induction a generalizing s with
+  | nil => rfl
+  | cons e es ih => exact ih _
+
+/-- **a rollout whose own `Watch` call succeeds has a watcher from then on**: whatever happened before (failed
+    calls of anybody, in-flight calls of others), whatever other reconciles start or finish while it is in flight,
+    and whatever happens afterwards: once a reconcile of rollout `r` runs its `Load` and its `Watch` call — if it
+    has to make one — succeeds, the kind is registered for good.  No failure of another rollout can prevent it,
+    and no rollout is ever kept from calling `Watch` by a kind that is claimed but not watched. -/
+theorem watch_eventually (s : WState) (pre mid post : List WEv) (r : Nat) (gvk : String)
+    (hmid : ∀ r' g res, WEv.finish r' g res ∈ mid → r' ≠ r) :
+    gvk ∈ (s.run (pre ++ [.start r gvk] ++ mid ++ [.finish r gvk .added] ++ post)).registry := by
+  rw [run_append, run_append, run_append, run_append]
+  apply registry_run_mono
+  generalize s.run pre = s1
+  have hstart : gvk ∈ (s1.run [.start r gvk]).registry ∨ r ∈ (s1.run [.start r gvk]).inflight := by
+    show gvk ∈ (s1.step (.start r gvk)).registry ∨ r ∈ (s1.step (.start r gvk)).inflight
+    rw [step_start]
+    by_cases hw : watchStart s1.registry gvk = true
+    · right; rw [if_pos hw]; exact List.mem_cons_self ..
+    · left; rw [if_neg hw]; simpa [watchStart] using hw
+  have hmidInv : ∀ (mid : List WEv) (t : WState),
+      (∀ r' g res, WEv.finish r' g res ∈ mid → r' ≠ r) →
+      (gvk ∈ t.registry ∨ r ∈ t.inflight) → (gvk ∈ (t.run mid).registry ∨ r ∈ (t.run mid).inflight) := by
+    intro mid
+    induction mid with
+    | nil => intro t _ h; exact h
+    | cons e es ih =>
+      intro t hm h
+      apply ih _ (fun r' g res he' => hm r' g res (List.mem_cons_of_mem _ he'))
+      rcases h with h | h
+      · exact Or.inl (registry_step_mono t e gvk h)
+      · right
+        cases e with
+        | start r' g => rw [step_start]; split
+                        · exact List.mem_cons_of_mem _ h
+                        · exact h
+        | finish r' g res =>
+          have hne := hm r' g res (List.mem_cons_self ..)
+          rw [step_finish]
+          split
+          · show r ∈ t.inflight.filter (· != r')
+            rw [List.mem_filter]
+            exact ⟨h, by simpa using fun e => hne e.symm⟩
+          · exact h
+  have h2 := hmidInv mid _ hmid hstart
+  generalize (s1.run [.start r gvk]).run mid = s2 at h2
+  show gvk ∈ (s2.step (.finish r gvk .added)).registry
+  rcases h2 with h2 | h2
+  · exact registry_step_mono s2 _ gvk h2
+  · rw [step_finish]
+    have : s2.inflight.contains r = true := by simpa using h2
+    rw [if_pos this]
+    show gvk ∈ (watchFinish s2.registry gvk .added).1
+    rw [finish_registry_mem]; exact Or.inr ⟨rfl, rfl⟩
 
 /-! ### the one-rollout model is the projection of the shared map -/
 
@@ -835,7 +992,15 @@ example : noNameClash "prod" "web" "web" false false "stage" "web" "web" false f
 /-- the hypotheses of `footprint_disjoint_partial` are satisfiable -/
 example : ("web" : String) ≠ "api" ∧ ("web" : String) ++ "-canary" ≠ "api" ∧ ("api" : String) ++ "-canary" ≠ "web" := by decide
 example : staticKinds.contains "apps/v1, Kind=Deployment" = true := by decide
-example : reconcileWatch staticKinds "example.com/v1, Kind=Foo" true = (staticKinds ++ ["example.com/v1, Kind=Foo"], true, true) := by decide
+/-- `watch_eventually`: hypotheses satisfiable with another rollout finishing in between -/
+example : ∀ r' g res, WEv.finish r' g res ∈ [WEv.start 2 "g, Kind=Foo", WEv.finish 2 "g, Kind=Foo" .err] → r' ≠ 1 := by
+  intro r' g res h; simp at h; omega
+example : reconcileWatch staticKinds "example.com/v1, Kind=Foo" .added = (staticKinds ++ ["example.com/v1, Kind=Foo"], true, .early) := by decide
+example : reconcileWatch staticKinds "example.com/v1, Kind=Foo" .err = (staticKinds, true, .error) := by decide
+/-- A's Watch fails, B (same kind) then registers it; C's in-flight Watch fails while D succeeds -/
+example : (WState.run ⟨staticKinds, [], []⟩ [.start 1 "g, Kind=Foo", .finish 1 "g, Kind=Foo" .err, .start 2 "g, Kind=Foo",
+    .finish 2 "g, Kind=Foo" .added, .start 3 "g, Kind=Bar", .start 4 "g, Kind=Bar", .finish 4 "g, Kind=Bar" .added,
+    .finish 3 "g, Kind=Bar" .err]).registry = staticKinds ++ ["g, Kind=Foo", "g, Kind=Bar"] := by decide
 /-- interleaving hypotheses are satisfiable -/
 example : Interleave (asEvents 1 [MOp.call (exCall exA .patchService 100 true)]) (asEvents 2 [MOp.call (exCall exB .patchService 200 true)])
     [.op 2 (.call (exCall exB .patchService 200 true)), .op 1 (.call (exCall exA .patchService 100 true))] :=
